@@ -188,8 +188,15 @@ static ASMJIT_INLINE bool check_op_sig(const InstDB::OpSignature& op, const Inst
 
   // Fail if some memory specific flags do not match.
   if (Support::test(common_flags, InstDB::OpFlags::kMemMask)) {
-    if (ref.has_flag(InstDB::OpFlags::kFlagMemBase) && !op.has_flag(InstDB::OpFlags::kFlagMemBase)) {
-      return false;
+    if (ref.has_flag(InstDB::OpFlags::kFlagMemBase)) {
+      if (!op.has_flag(InstDB::OpFlags::kFlagMemBase)) {
+        return false;
+      }
+
+      // Such operand has a fixed base register (string instructions, maskmovq, clzero, ...).
+      if (ref.reg_mask() && !Support::test(op.reg_mask(), ref.reg_mask())) {
+        return false;
+      }
     }
   }
 
